@@ -4,6 +4,7 @@
 package vsync
 
 import (
+	"reflect"
 	"sync"
 	"sync/atomic"
 
@@ -324,5 +325,130 @@ func (c *Cond) Broadcast() {
 	verifrt.Pre(KCondSignal)
 	c.gen.Add(1)
 	c.real.Broadcast()
+	verifrt.Post()
+}
+
+// Channels ---------------------------------------------------------------------------------------------------------
+// In the instrumented build `ch <- v`, `<-ch`, `v, ok := <-ch` and `close(ch)` outside select statements are redirected
+// here. Under the cooperative scheduler only one thread runs at a time and none is ever parked inside a real channel
+// operation, so a rendezvous is modelled: a sender that cannot complete registers its value as pending and waits; a
+// receiver takes buffered data first (then lets the oldest pending sender refill the buffer) and otherwise the oldest
+// pending value. select statements and range-over-channel loops are not redirected (a tree that blocks in one of them
+// makes the execution hang; the scheduler's watchdog then abandons the exploration as incomplete).
+type pendingSend struct {
+	v     any
+	push  func() bool
+	taken bool
+}
+
+// pending is only touched by the one running thread of a controlled execution.
+var pending = map[uintptr][]*pendingSend{}
+
+// Reset forgets pending senders of earlier executions.
+func Reset() { pending = map[uintptr][]*pendingSend{} }
+
+func chanKey(ch any) uintptr {
+	v := reflect.ValueOf(ch)
+	if !v.IsValid() || v.IsNil() {
+		return 0
+	}
+
+	return v.Pointer()
+}
+
+func Send[T any](ch chan<- T, v T) {
+	if !verifrt.Controlled() {
+		ch <- v
+		return
+	}
+
+	verifrt.Pre(KChan)
+
+	key := chanKey(ch)
+
+	if len(pending[key]) == 0 {
+		select {
+		case ch <- v:
+			verifrt.Post()
+			return
+		default:
+		}
+	}
+
+	p := &pendingSend{v: v, push: func() bool {
+		select {
+		case ch <- v:
+			return true
+		default:
+			return false
+		}
+	}}
+	pending[key] = append(pending[key], p)
+	verifrt.Post()
+
+	for !p.taken {
+		if !verifrt.Block() {
+			// the controlled execution ended under us: complete for real
+			for i, q := range pending[key] {
+				if q == p {
+					pending[key] = append(pending[key][:i], pending[key][i+1:]...)
+					break
+				}
+			}
+
+			ch <- v
+
+			return
+		}
+	}
+}
+
+func Recv[T any](ch <-chan T) T {
+	v, _ := Recv2(ch)
+	return v
+}
+
+func Recv2[T any](ch <-chan T) (T, bool) {
+	if !verifrt.Controlled() {
+		v, ok := <-ch
+		return v, ok
+	}
+
+	verifrt.Pre(KChan)
+
+	key := chanKey(ch)
+
+	for {
+		select {
+		case v, ok := <-ch:
+			if q := pending[key]; ok && len(q) > 0 && q[0].push() {
+				q[0].taken = true
+				pending[key] = q[1:]
+			}
+
+			verifrt.Post()
+
+			return v, ok
+		default:
+		}
+
+		if q := pending[key]; len(q) > 0 {
+			q[0].taken = true
+			pending[key] = q[1:]
+			verifrt.Post()
+
+			return q[0].v.(T), true
+		}
+
+		if !verifrt.Block() {
+			v, ok := <-ch
+			return v, ok
+		}
+	}
+}
+
+func Close[T any](ch chan<- T) {
+	verifrt.Pre(KChan)
+	close(ch)
 	verifrt.Post()
 }
